@@ -135,10 +135,15 @@ static void legacy_case(uint64_t c)
                 struct isal_cbc_key_data kd __attribute__((aligned(16)));
                 aes_cbc_precomp(keyb, ks == 0 ? 16 : ks == 1 ? 24 : 32, &kd);
                 DIFF("aes_cbc_precomp enc", kd.enc_keys, e1, n); DIFF("aes_cbc_precomp dec", kd.dec_keys, d1, n);
-                uint32_t cl = 16 * (1 + rng_below(&r, 30));
+                uint32_t cl = rng_below(&r, 5) == 0 ? 0 : 16 * (1 + rng_below(&r, 30));   /* zero blocks is inside the documented domain */
                 uint8_t ivb[16] __attribute__((aligned(16))); memcpy(ivb, iv, 16);
-                cbc_enc_isal[ks](in, ivb, e1, o1, cl); cbc_enc_legacy[ks](in, ivb, e1, o2, cl); DIFF("cbc enc", o1, o2, cl);
-                cbc_dec_isal[ks](in, ivb, d1, o1, cl); cbc_dec_legacy[ks](in, ivb, d1, o2, cl); DIFF("cbc dec", o1, o2, cl);
+                memset(o1, 0x77, 16); memset(o2, 0x77, 16);
+                LABEL("cbc legacy vs isal len=%u", cl);
+                if (GUARDED((cbc_enc_isal[ks](in, ivb, e1, o1, cl), cbc_enc_legacy[ks](in, ivb, e1, o2, cl)))) { snprintf(key, sizeof key, "legacy-differs cbc enc (fault)"); out_viol("C16", key, rbuf, "cbc enc %d len=%u: one of the two entry points faulted at %p", ks_bits3[ks], cl, fault_last.addr); }
+                else DIFF("cbc enc", o1, o2, cl ? cl : 16);
+                if (GUARDED((cbc_dec_isal[ks](in, ivb, d1, o1, cl), cbc_dec_legacy[ks](in, ivb, d1, o2, cl)))) { snprintf(key, sizeof key, "legacy-differs cbc dec (fault)"); out_viol("C16", key, rbuf, "cbc dec %d len=%u: one of the two entry points faulted at %p", ks_bits3[ks], cl, fault_last.addr); }
+                else DIFF("cbc dec", o1, o2, cl ? cl : 16);
+                cur_label[0] = 0;
         }
         /* hashes: a few jobs through both APIs */
         for (int ai = 0; ai < 5; ai++) {
